@@ -11,8 +11,9 @@ NextB == \/ \E g \in {"R90", "MX", "MY"} : ApplyB(g)
          \/ \E p \in RectP \cup SquareP : ChangePitchB(p)
 View  == vars
 Emit  == PrintT(ToJson([lvl |-> TLCGet("level"), from |-> Vars, act |-> [n |-> act'.n, g |-> act'.g],
-                        to |-> [th |-> th', bc |-> bc', c |-> c', pitch |-> pitch'],
+                        to |-> [th |-> th', bc |-> bc', c |-> c', pitch |-> pitch', sp |-> sp'],
                         obs |-> [c |-> c', xy |-> IF act'.n = "Apply" THEN ApplyGen(act'.g, GeoCentre(th, pitch, c))
                                                   ELSE GeoCentre(th, pitch', c)]]))
-EmitState == PrintT(ToJson([st |-> Vars, obs |-> Obs]))
+EmitState == InitLike => PrintT(ToJson([st |-> Vars, obs |-> Obs]))     \* images keep the spelling: not new cases
+NextE == NextB                                                        \* emission: only the initial states are expanded
 ==========================================================================================================
